@@ -64,7 +64,7 @@ mutual
          (match c with
           | .arr qs => deepFilterList qs d
           | _ => [])
-       else if key.startsWith "$" || !keyOk key then []
+       else if key.startsWith "$" then []
        else pathLabels key d ++ deepCond c (reach (splitDots key) d)) ++ deepFilter rest d
   termination_by structural x _ => x
 
